@@ -6,8 +6,14 @@ cd "$(dirname "$0")"
 export GOFLAGS=-mod=mod GOPROXY=off
 (cd coq && timeout 3000 ./mk.sh)
 mkdir -p runner/gen
+coq/Extract/gen.sh
+runner/genall.sh
 (cd runner/gen && timeout 1200 coqc -Q ../../coq GP ../../coq/Extract/Extract.v && echo ok > .stamp)
 (cd runner && timeout 1200 dune build ./main.exe)
-cp /repo/go.sum harness/go.sum
-(cd harness && timeout 1800 go build -tags verif -o bin/gpverif ./cmd/gpverif)
+REPO=${VERIF_REPO:-/repo}
+mkdir -p harness/bin
+sed "s#@REPO@#$REPO#" harness/go.mod.tmpl > harness/bin/go.mod
+cp $REPO/go.sum harness/bin/go.sum
+cp $REPO/go.sum harness/go.sum
+(cd harness && timeout 1800 go build -modfile bin/go.mod -tags verif -o bin/gpverif ./cmd/gpverif)
 echo setup done
